@@ -172,15 +172,17 @@ func runC01Labels(c *Ctx) {
 	// extractPoints selection
 	if f := c.P.Func("geom.(*doublyConnectedEdgeList).extractPoints"); f != nil {
 		var sel *ssa.Store
-		eachInstr(f, func(in ssa.Instruction) {
-			if st, ok := in.(*ssa.Store); ok {
-				if fa, ok := st.Addr.(*ssa.FieldAddr); ok {
-					if sn, fl := fieldOfAddr(fa); sn == "vertexRecord" && fl == "extracted" {
-						sel = st
+		for _, g := range withHelpersAndLiterals(f) {
+			eachInstr(g, func(in ssa.Instruction) {
+				if st, ok := in.(*ssa.Store); ok {
+					if fa, ok := st.Addr.(*ssa.FieldAddr); ok {
+						if sn, fl := fieldOfAddr(fa); sn == "vertexRecord" && fl == "extracted" {
+							sel = st
+						}
 					}
 				}
-			}
-		})
+			})
+		}
 		good := false
 		if sel != nil {
 			notExtracted, included := false, false
@@ -529,7 +531,8 @@ func checkFaceDepthLabels(c *Ctx) {
 	okDelta, badDelta := 0, ""
 	floodTrue := ""
 	gtZero := 0
-	for _, g := range append([]*ssa.Function{af}, allAnon(af)...) {
+	scope := withHelpersAndLiterals(af)
+	for _, g := range scope {
 		eachInstr(g, func(in ssa.Instruction) {
 			switch x := in.(type) {
 			case *ssa.BinOp:
@@ -679,4 +682,28 @@ func readsHalfEdgeField(v ssa.Value, fields map[string]bool, d int) bool {
 		}
 	}
 	return false
+}
+
+// withHelpersAndLiterals: f, its function literals, the helpers introduced
+// since the baseline that any of them calls, their literals, and so on — the
+// code that used to be f's body.
+func withHelpersAndLiterals(f *ssa.Function) []*ssa.Function {
+	out := []*ssa.Function{f}
+	seen := map[*ssa.Function]bool{f: true}
+	for i := 0; i < len(out) && i < 64; i++ {
+		g := out[i]
+		for _, a := range g.AnonFuncs {
+			if !seen[a] {
+				seen[a] = true
+				out = append(out, a)
+			}
+		}
+		eachCall(g, func(call ssa.CallInstruction) {
+			if h := staticCallee(call); h != nil && !seen[h] && isNewHelper(h) && len(h.Blocks) > 0 {
+				seen[h] = true
+				out = append(out, h)
+			}
+		})
+	}
+	return out
 }
